@@ -11,5 +11,5 @@ cd lean
 lake build YawVerif 2>&1 | tail -5 || true
 # warm the drivers
 echo "" | lake env lean --run SpecDriver.lean >/dev/null 2>&1 || true
-echo "" | lake env lean --run GenDriver.lean >/dev/null 2>&1 || true
+echo "" | lake env lean --run GenResample.lean >/dev/null 2>&1 || true
 exit 0
